@@ -86,6 +86,20 @@ shape batch + [2]): every sample receives the whole value -/
 def opSetConst : TOp :=
   ⟨id, fun _ n => n, fun b l => (l.filter (fun p => p.1 != "c")) ++ [("c", arangeT 100000 (b ++ [2]))]⟩
 
+/-- a functional module call `with params.to_module(net): net(x)` for `net = torch.nn.Linear(nin, nout)`
+(tensordict/base.py:to_module swaps the entries of `params` into the module for the duration of the call, so the
+call computes with exactly these tensors): `y = x @ weight.T + bias`, with `ba` leading (per-sample) batch dims.
+`a` = the parameter tensordict {weight : ba ++ [nout, nin], bias : ba ++ [nout]}, `b` = {x : ba ++ [nin]} -/
+def opLinear : TOp2 :=
+  ⟨fun ba _ => ba, fun _ _ na _ => na,
+   fun ba _ la lb =>
+     match la.lookup "weight", la.lookup "bias", lb.lookup "x" with
+     | some w, some bias, some x =>
+       let nin := x.shape.getD ba.length 0
+       [("y", ⟨bias.shape, fun c =>
+          ((List.range nin).map (fun k => w.get (c ++ [k]) * x.get (c.take ba.length ++ [k]))).foldl (· + ·) 0 + bias.get c⟩)]
+     | _, _, _ => []⟩
+
 /-- is the operation applicable to a tensordict of this batch size / these keys (else the real call raises) -/
 inductive OpName where
   | mul2 | add1 | neg | unsqueeze (d : Nat) | permuteRev | transpose01 | idx0 | expand2 | stackSelf | sum0 | catSelf
@@ -112,5 +126,20 @@ def OpName.okOn (b : Shape) : OpName → Bool
   | .sum0 => 1 ≤ b.length
   | .catSelf => 1 ≤ b.length
   | _ => true
+
+/-- the functions Model/C19Vmap.lean and C19Lazy.lean transcribe, with the shape (sha1 of the normalised ast) they had
+when they were transcribed — to be updated together with the model -/
+def expectedShapes : List (String × String) := [
+  ("tensordict/_td.py:TensorDict._add_batch_dim", "748fb499dcd7b5c4"),
+  ("tensordict/_td.py:TensorDict._remove_batch_dim", "f3a1b37039fe6d7a"),
+  ("tensordict/_td.py:TensorDict._maybe_remove_batch_dim", "6c58d6406fc796a4"),
+  ("tensordict/_lazy.py:LazyStackedTensorDict._add_batch_dim", "0db99c84eebb2bde"),
+  ("tensordict/_lazy.py:LazyStackedTensorDict._cached_add_batch_dims", "d6703e473f913976"),
+  ("tensordict/_lazy.py:LazyStackedTensorDict._remove_batch_dim", "05d560da2d86573d"),
+  ("tensordict/_lazy.py:LazyStackedTensorDict._maybe_remove_batch_dim", "a84a861622944643"),
+  ("tensordict/nn/functional_modules.py:_process_batched_inputs", "f527a47a708d6c5e"),
+  ("tensordict/nn/functional_modules.py:_create_batched_inputs", "439f6ee4e0729e5f"),
+  ("tensordict/nn/functional_modules.py:_unwrap_batched", "594212d7481443a3")
+]
 
 end TdVerif.C19
